@@ -6,6 +6,15 @@ From EV Require Import Res Arr Csv CsvSpec CsvBase CsvKernel CsvTable CsvRows Cs
 Import ListNotations.
 Open Scope Z_scope.
 
+Lemma lt_succ_fun' c r x : (if x =? c then r + 1 else if x <? c then r + 1 else r) = if x <? c + 1 then r + 1 else r.
+Proof.
+  destruct (x =? c) eqn:E1.
+  - apply Z.eqb_eq in E1. subst x. destruct (c <? c + 1) eqn:E2; [reflexivity|apply Z.ltb_ge in E2; lia].
+  - apply Z.eqb_neq in E1. destruct (x <? c) eqn:E2; destruct (x <? c + 1) eqn:E3; try reflexivity.
+    + apply Z.ltb_lt in E2. apply Z.ltb_ge in E3. lia.
+    + apply Z.ltb_ge in E2. apply Z.ltb_lt in E3. lia.
+Qed.
+
 Section Gen.
 Variables (src offs : list Z) (maxrow ncols : Z).
 Let w := maxrow + 1.
@@ -399,6 +408,186 @@ Qed.
 
 Lemma GoodL_drop c r inds vals : 0 <= r -> GoodL (fun x => if x <? c then r + 1 else r) inds vals -> GoodL (fun _ => r) inds vals.
 Proof. intros Hr HG. eapply GoodL_weaken; [exact HG|]. intros x Hx. cbv beta. destruct (x <? c); lia. Qed.
+
+Notation cstate := (CsvRows.cstate offs).
+Notation cstate_f := (cstate_f offs).
+
+(* what is left of a record (from some column on) in the window *)
+Definition R (cut:bool) (cells:list cell) (l:list Z) : Prop :=
+  if cut then l <> [] /\ exists q, q <> [] /\ render_row cells = l ++ q
+  else exists rest, l = render_row cells ++ rest /\ nows rest.
+
+Lemma nows_row cells : cells <> [] -> nows (render_row cells).
+Proof. intros H. rewrite <- (app_nil_r (render_row cells)). apply nows_render_row. exact H. Qed.
+
+Lemma R_cons cut cl cells l : R cut (cl :: cells) l ->
+  (cut = true /\ C true cl l)
+  \/ (cells = [] /\ cut = false /\ exists rest, l = render_cell cl ++ NL :: rest /\ nows rest)
+  \/ (cells <> [] /\ exists l'', l = render_cell cl ++ SEP :: l'' /\ nows l'' /\ ((l'' = [] /\ cut = true) \/ R cut cells l'')).
+Proof.
+  unfold R, C. destruct cut.
+  - intros (Hne & q & Hq & E).
+    assert (Hrow : exists d Rr, render_row (cl :: cells) = render_cell cl ++ d :: Rr /\
+                     ((Rr = [] /\ cells = []) \/ (d = SEP /\ Rr = render_row cells /\ cells <> []))).
+    { destruct cells as [|cl2 cells'].
+      - exists NL, []. split; [reflexivity|left; auto].
+      - exists SEP, (render_row (cl2 :: cells')). split; [reflexivity|right]. repeat split. discriminate. }
+    destruct Hrow as (d & Rr & Erow & Hd). rewrite Erow in E.
+    destruct (app_eq_app _ _ _ _ E) as (x & [(E1 & E2)|(E1 & E2)]).
+    + left. split; [reflexivity|]. split; [exact Hne|]. exists x. exact E1.
+    + destruct x as [|d' l''].
+      * left. split; [reflexivity|]. split; [exact Hne|]. exists []. rewrite app_nil_r in *. symmetry. exact E1.
+      * cbn [app] in E2. inversion E2 as [[Hd' HR]]. subst d'.
+        destruct Hd as [(HR0 & _)|(Hd & HRr & Hmore)].
+        { exfalso. rewrite HR0 in HR. destruct l''; [cbn in HR; subst q; contradiction|discriminate]. }
+        subst d. right. right. split; [exact Hmore|]. exists l''. split; [exact E1|].
+        assert (Hnw : nows l'') by (apply (nows_app_l l'' q); rewrite <- HR, HRr; apply nows_row; exact Hmore).
+        split; [exact Hnw|]. destruct l'' as [|z l3]; [left; auto|right].
+        split; [discriminate|]. exists q. split; [exact Hq|]. rewrite <- HRr. exact HR.
+  - intros (rest & E & Hn). destruct cells as [|cl2 cells'].
+    + right. left. split; [reflexivity|]. split; [reflexivity|]. exists rest. cbn [render_row] in E. rewrite <- app_assoc in E. auto.
+    + right. right. split; [discriminate|]. exists (render_row (cl2 :: cells') ++ rest).
+      change (render_row (cl :: cl2 :: cells')) with (render_cell cl ++ SEP :: render_row (cl2 :: cells')) in E.
+      rewrite <- app_assoc in E. cbn [app] in E. split; [exact E|]. split; [apply nows_render_row; discriminate|].
+      right. exists rest. auto.
+Qed.
+
+(* the call stops inside record r (values full, or the window ends): r records are committed *)
+Definition HaltR (cut:bool) (r e:Z) (s:st) : Prop :=
+  s_index s <= len src /\ e + 1 < s_index s /\ s_eol s = e /\ s_row s = r /\ s_ifull s = false /\
+  GoodL (fun _ => r) (s_inds s) (s_vals s) /\
+  ((s_vfull s = true /\ 0 <= s_vfc s < ncols /\ bud (s_vfc s) <= len (CB rows (s_vfc s)))
+   \/ (s_vfull s = false /\ s_index s = len src /\ cut = true)).
+
+Lemma run_cells_g r : 0 <= r < nrows -> r + 1 <= maxrow -> forall cells c i e inds vals l cut,
+  cells <> [] -> 0 <= c -> c + len cells = ncols -> 0 <= i -> e < i ->
+  suf src i = l -> R cut cells l ->
+  (forall j, 0 <= j < len cells -> snd (nthd (false, []) cells j) = cell_text rows r (c + j)) ->
+  GoodL (fun x => if x <? c then r + 1 else r) inds vals ->
+  (cut = false /\ exists n s_pre inds' vals',
+     runn n (cstate i e c r inds vals) s_pre /\
+     step s_pre = Ok (cstate_f (r + 1 =? maxrow) (i + len (render_row cells)) (i + len (render_row cells) - 1) 0 (r + 1) inds' vals') /\
+     GoodL (fun _ => r + 1) inds' vals')
+  \/ (exists s, reaches (cstate i e c r inds vals) s /\ HaltR cut r e s).
+Proof.
+  intros Hr Hrm. assert (Er : (0 <=? r) = true) by (apply Z.leb_le; lia).
+  assert (Er2 : (r <? 0) = false) by (apply Z.ltb_ge; lia).
+  induction cells as [|cl cells IH]; intros c i e inds vals l cut Hne Hc Hlen Hi Hei H HR Htxt HG; [contradiction|].
+  assert (Htc : snd cl = cell_text rows r c).
+  { specialize (Htxt 0). rewrite Z.add_0_r in Htxt. apply Htxt. rewrite len_cons. pose proof (len_nonneg cells). lia. }
+  assert (Hcn : 0 <= c < ncols) by (rewrite len_cons in Hlen; pose proof (len_nonneg cells); lia).
+  assert (Hfc : (if c <? c then r + 1 else r) = r) by (rewrite Z.ltb_irrefl; reflexivity).
+  destruct HG as (Hsh & Hlv & HGc). pose proof (HGc c Hcn) as (_ & Hbd & Hk & _). rewrite Hfc in Hbd, Hk.
+  assert (HG : GoodL (fun x => if x <? c then r + 1 else r) inds vals) by (split; [exact Hsh|split; [exact Hlv|exact HGc]]).
+  assert (Hcs : I2 inds c r = P rows c r) by (apply Hk; lia).
+  pose proof (P_nonneg rows c r) as Hpn. pose proof (offs_nonneg1 c ltac:(lia)) as Hon.
+  pose proof (offs_mono1 (c + 1) ncols ltac:(lia) ltac:(lia) ltac:(lia)) as Hm.
+  pose proof (len_nonneg (render_cell cl)) as Hl.
+  assert (HLb : nthZ offs c + bud c <= V) by (unfold bud; lia).
+  (* the possible outcomes of this cell *)
+  assert (Hcell : forall cut', C cut' cl l ->
+            outc e c r (-1) (P rows c r) i (nthZ offs c) (bud c) inds cut'
+                 (Sv e c r (-1) (P rows c r) i (nthZ offs c) (bud c) inds i false false 0 vals) 0 vals (snd cl) (i + len (render_cell cl))).
+  { intros cut' HC. exact (run_cell_g e c r (-1) (P rows c r) i (nthZ offs c) (bud c) V inds (proj1 Hr) Hon Hpn HLb cut' cl i vals l
+                             eq_refl Hi H HC Hbd Hlv). }
+  assert (Est : Sv e c r (-1) (P rows c r) i (nthZ offs c) (bud c) inds i false false 0 vals = cstate i e c r inds vals).
+  { unfold Sv, S0, CsvRows.cstate, bud. rewrite Hcs. reflexivity. }
+  rewrite Est in Hcell.
+  (* a stop inside the cell *)
+  assert (Hstop : forall cut' s, (cut' = true -> cut = true) -> reaches (cstate i e c r inds vals) s ->
+            cstop e c r (-1) (P rows c r) i (nthZ offs c) (bud c) inds cut' vals 0 (snd cl) s -> HaltR cut r e s).
+  { intros cut' s Hcc Rs (idx & esc & cand & k & vf & tp & tq & Et & Hle & Es & Hv).
+    pose proof (reaches_index _ _ Rs) as Hidx. unfold CsvRows.cstate in Hidx. cbn [s_index] in Hidx.
+    rewrite Z.add_0_r in Hle, Es. subst s. cbn [s_index s_eol s_row s_ifull s_vfull s_vfc s_inds s_vals] in *.
+    assert (HGw : GoodL (fun _ => r) inds (wrs vals (nthZ offs c + P rows c r) tp)).
+    { apply (GoodL_drop c r); [lia|]. apply (GoodL_write _ inds vals c r tp HG Hcn Hfc). lia. }
+    assert (Hlt : len tp <= len (cell_text rows r c)).
+    { rewrite <- Htc, Et, len_app. pose proof (len_nonneg tq). lia. }
+    unfold HaltR. cbn [s_index s_eol s_row s_ifull s_vfull s_vfc s_inds s_vals].
+    destruct vf.
+    - destruct Hv as (Hv1 & Hv2). split; [exact Hv1|]. split; [lia|]. do 3 (split; [reflexivity|]). split; [exact HGw|].
+      left. split; [reflexivity|]. split; [exact Hcn|].
+      pose proof (P_succ rows c r Hr) as Hps. pose proof (P_le rows c (r + 1) ltac:(unfold nrows in Hr; lia)) as Hple. lia.
+    - destruct Hv as (Hv1 & Hv2). split; [lia|]. split; [lia|]. do 3 (split; [reflexivity|]). split; [exact HGw|].
+      right. split; [reflexivity|]. split; [exact Hv1|apply Hcc; exact Hv2]. }
+  destruct (R_cons cut cl cells l HR) as [(Hcut & HC)|[(Hcells & Hcut & rest & El & Hn)|(Hmore & l'' & El & Hnw & Hl'')]].
+  - (* the window ends inside this cell *)
+    right. destruct (Hcell true HC) as [(Hc0 & _)|(s & Rs & Hst)]; [discriminate|].
+    exists s. split; [exact Rs|]. apply (Hstop true s); auto.
+  - (* last cell of a complete record *)
+    subst cells cut.
+    assert (HC : C false cl l) by (unfold C; exists NL, rest; auto).
+    destruct (Hcell false HC) as [(_ & Hfit & n & Rn)|(s & Rs & Hst)].
+    + left. split; [reflexivity|]. rewrite Z.add_0_l, !Z.add_0_r in *.
+      pose proof (GoodL_cell _ inds vals c r HG Hcn Hfc Hr ltac:(unfold w; lia) ltac:(rewrite <- Htc; lia)) as HG1.
+      rewrite El in H. pose proof (suf_app_len src i _ _ Hi H) as Hs.
+      replace (len [cl]) with 1 in Hlen by reflexivity.
+      exists n. eexists. exists (put2 inds c (r + 1) (P rows c r + len (cell_text rows r c))),
+                                (wrs vals (nthZ offs c + P rows c r) (cell_text rows r c)).
+      split; [exact Rn|]. split.
+      * unfold Sv, S0. rewrite (step_nl src offs maxrow ncols Hoffs (i + len (render_cell cl)) e c r (-1) (len (snd cl)) (P rows c r) i
+                           (nthZ offs c) (bud c) inds _ rest); try assumption; try lia.
+        rewrite Er. cbv zeta. unfold CsvPrefix.cstate_f. cbn [render_row].
+        replace (len (render_cell cl ++ [NL])) with (len (render_cell cl) + 1) by (rewrite len_app; reflexivity).
+        rewrite Htc. replace (0 + 1) with 1 by lia.
+        destruct (r + 1 =? maxrow); f_equal; f_equal; lia.
+      * eapply GoodL_ext; [|exact HG1]. intros x Hx. cbv beta.
+        destruct (x =? c) eqn:E1; [reflexivity|]. apply Z.eqb_neq in E1.
+        destruct (x <? c) eqn:E2; [reflexivity|]. apply Z.ltb_ge in E2. lia.
+    + right. exists s. split; [exact Rs|]. apply (Hstop false s); auto; discriminate.
+  - (* a cell followed by a separator *)
+    assert (HC : C false cl l) by (unfold C; exists SEP, l''; auto).
+    assert (Hlm : len (cl :: cells) = len cells + 1) by apply len_cons.
+    assert (Hlm0 : 1 <= len cells) by (destruct cells; [contradiction|rewrite len_cons; pose proof (len_nonneg cells); lia]).
+    rewrite Hlm in Hlen.
+    destruct (Hcell false HC) as [(_ & Hfit & n & Rn)|(s & Rs & Hst)].
+    + rewrite Z.add_0_l, !Z.add_0_r in *.
+      pose proof (GoodL_cell _ inds vals c r HG Hcn Hfc Hr ltac:(unfold w; lia) ltac:(rewrite <- Htc; lia)) as HG1.
+      rewrite El in H. pose proof (suf_app_len src i _ _ Hi H) as Hs.
+      pose proof (step_sep src offs maxrow ncols Hoffs (i + len (render_cell cl)) e c r (-1) (len (snd cl)) (P rows c r) i
+                    (nthZ offs c) (bud c) inds (wrs vals (nthZ offs c + P rows c r) (snd cl))
+                    l'' ltac:(lia) Hs Hnw Hsh Hc ltac:(lia) ltac:(lia) ltac:(unfold w; lia)) as Hst.
+      rewrite Er, Er2 in Hst. cbv zeta in Hst. rewrite Htc in Hst.
+      set (inds1 := put2 inds c (r + 1) (P rows c r + len (cell_text rows r c))) in *.
+      set (vals1 := wrs vals (nthZ offs c + P rows c r) (cell_text rows r c)) in *.
+      destruct (suf_cons src (i + len (render_cell cl)) SEP _ ltac:(lia) Hs) as (Hlt & _ & Hs2 & _).
+      assert (HG2 : GoodL (fun x => if x <? c + 1 then r + 1 else r) inds1 vals1).
+      { eapply GoodL_ext; [|exact HG1]. intros x Hx. cbv beta. apply lt_succ_fun'. }
+      assert (Hst' : step (Sv e c r (-1) (P rows c r) i (nthZ offs c) (bud c) inds (i + len (render_cell cl)) false false (len (snd cl))
+                              (wrs vals (nthZ offs c + P rows c r) (snd cl))) =
+                     Ok (cstate (i + len (render_cell cl) + 1) e (c + 1) r inds1 vals1)).
+      { unfold Sv, S0. rewrite Htc. fold vals1. rewrite Hst. unfold CsvRows.cstate.
+        replace (c + 1 + 1) with (c + 2) by lia. reflexivity. }
+      assert (Erow : render_row (cl :: cells) = render_cell cl ++ SEP :: render_row cells).
+      { destruct cells; [contradiction|reflexivity]. }
+      destruct Hl'' as [(El'' & Hcut)|HR'].
+      * (* the separator is the last byte of the window *)
+        subst l''. apply suf_nil_iff in Hs2; try lia. right.
+        exists (cstate (i + len (render_cell cl) + 1) e (c + 1) r inds1 vals1). split.
+        -- eapply reaches_runn; [exact Rn|]. apply reaches_step. exact Hst'.
+        -- unfold HaltR, CsvRows.cstate. cbn [s_index s_eol s_row s_ifull s_vfull s_vfc s_inds s_vals].
+           split; [lia|]. split; [lia|]. do 3 (split; [reflexivity|]). split; [apply (GoodL_drop (c + 1) r); [lia|exact HG2]|].
+           right. split; [reflexivity|]. split; [lia|exact Hcut].
+      * assert (Hl''ne : l'' <> []).
+        { intros ->. unfold R in HR'. destruct cut; [destruct HR' as (HH & _); contradiction|].
+          destruct HR' as (rest & E & _). symmetry in E. apply app_eq_nil in E. destruct E as (E & _).
+          apply (render_row_nonnil cells E). }
+        assert (Hn1 : noexit src (cstate (i + len (render_cell cl) + 1) e (c + 1) r inds1 vals1)).
+        { unfold noexit, CsvRows.cstate. cbn [s_index s_ifull s_vfull]. destruct l'' as [|z l3]; [contradiction|].
+          destruct (suf_cons src (i + len (render_cell cl) + 1) _ _ ltac:(lia) Hs2) as (Hlt2 & _). repeat split; lia. }
+        destruct (IH (c + 1) (i + len (render_cell cl) + 1) e inds1 vals1 l'' cut Hmore ltac:(lia) ltac:(lia) ltac:(lia) ltac:(lia) Hs2 HR')
+          as [(Hcut & n2 & s_pre & inds' & vals' & R2 & Hfin & HG3)|(s & Rs & Hh)].
+        { intros j Hj. specialize (Htxt (j + 1)). rewrite Hlm in Htxt. specialize (Htxt ltac:(lia)).
+          rewrite nthd_cons_succ in Htxt by lia. rewrite Htxt. f_equal. lia. }
+        { exact HG2. }
+        -- left. split; [exact Hcut|]. exists (n + (1 + n2))%nat, s_pre, inds', vals'. split; [|split].
+           ++ eapply runn_trans; [exact Rn|]. eapply runn_trans; [|exact R2]. apply runn_one; [exact Hst'|exact Hn1].
+           ++ rewrite Hfin. rewrite Erow, len_app, len_cons. f_equal. f_equal; lia.
+           ++ exact HG3.
+        -- right. exists s. split; [|exact Hh].
+           eapply reaches_runn; [exact Rn|]. eapply reaches_cons; [exact Hst'|exact Hn1|exact Rs].
+    + right. exists s. split; [exact Rs|]. apply (Hstop false s); auto; discriminate.
+Qed.
 
 End DataG.
 
